@@ -332,6 +332,7 @@ func checkMain(propID, tier string) int {
 				}
 			}
 			violations = append(violations, r.Violations...)
+			inconclusive = append(inconclusive, r.Inconcl...)
 		}
 		violations = append(violations, o.crashes...)
 		// suspected hangs: confirm in isolation with a long budget
